@@ -26,6 +26,7 @@ const findingSig2 = "series-torn-id-zero-entry-breaks-compacted-index"
 type jkey struct {
 	Name string      `json:"name"`
 	Tags [][2]string `json:"tags,omitempty"`
+	Pad  int         `json:"pad_x,omitempty"` // the measurement name is Name followed by Pad 'x' bytes (huge keys)
 }
 type jrow struct {
 	ID  uint64 `json:"id"`
@@ -49,6 +50,10 @@ type jcase struct {
 	Ops   []jop    `json:"ops"`
 	Final []string `json:"impl_segments,omitempty"`
 	Gen   string   `json:"gen,omitempty"`
+	// segment roll-over history: the first keys are huge so that partition's segment 0000 (4 MiB)
+	// fills up; judged by the trace oracle only (Go side + Coq oracle on the id skeleton).
+	Roll     bool `json:"rollover,omitempty"`
+	RollTail int  `json:"rollover_tail_bytes,omitempty"` // bytes left free in segment 0000 after the first op
 	// set when, in a history of the second known-finding shape (an insert entry cut inside its
 	// flag+id bytes, later an index compaction), the compaction changed SeriesID of some key:
 	// the history stops there (FailAt = index of that compact op).
@@ -56,7 +61,7 @@ type jcase struct {
 	FailWhat string `json:"impl_fail_what,omitempty"`
 }
 
-func (k jkey) name() []byte { return []byte(k.Name) }
+func (k jkey) name() []byte { return []byte(k.Name + strings.Repeat("x", k.Pad)) }
 func (k jkey) tags() models.Tags {
 	m := map[string]string{}
 	for _, t := range k.Tags {
@@ -85,16 +90,17 @@ func activeSeg(p *tsdb.SeriesPartition) *tsdb.SeriesSegment {
 // the first n bytes of the appended entry, reopen.  Returns the entry length.
 func (e *env) crash(pid int, n int, do func() error) (int, error) {
 	p := e.sf.Partitions()[pid]
-	if len(p.Segments()) != 1 {
-		return 0, fmt.Errorf("unexpected segment count %d", len(p.Segments()))
-	}
-	s := activeSeg(p)
-	path := s.Path()
-	size0 := s.Size()
+	nseg0 := len(p.Segments())
+	size0 := activeSeg(p).Size()
 	if err := do(); err != nil {
 		return 0, err
 	}
-	size1 := activeSeg(p).Size()
+	s := activeSeg(p)
+	path := s.Path()
+	size1 := s.Size()
+	if len(p.Segments()) > nseg0 { // the entry rolled over into a fresh segment: it starts right after the header
+		size0 = tsdb.SeriesSegmentHeaderSize
+	}
 	if err := e.sf.Close(); err != nil {
 		return 0, err
 	}
@@ -134,11 +140,15 @@ func run(c *jcase) (err error) {
 	}
 	defer func() { e.sf.Close() }()
 	keyBytes := make([][]byte, len(c.Keys))
+	knames := make([][]byte, len(c.Keys))
+	ktags := make([]models.Tags, len(c.Keys))
 	c.Parts = make([]int, len(c.Keys))
 	for i, k := range c.Keys {
-		keyBytes[i] = k.bytes()
+		knames[i], ktags[i] = k.name(), k.tags()
+		keyBytes[i] = tsdb.AppendSeriesKey(nil, knames[i], ktags[i])
 		c.Parts[i] = e.sf.SeriesKeyPartitionID(keyBytes[i])
 	}
+	var kbuf []byte
 	c.FailAt, c.FailWhat = 0, ""
 	tornInsert := false // a crash_create with 1 <= n <= 8 was requested earlier (input-only shape)
 	var lastIDs []uint64
@@ -152,7 +162,7 @@ func run(c *jcase) (err error) {
 			names := make([][]byte, len(idxs))
 			tags := make([]models.Tags, len(idxs))
 			for j, i := range idxs {
-				names[j], tags[j] = c.Keys[i].name(), c.Keys[i].tags()
+				names[j], tags[j] = knames[i], ktags[i]
 			}
 			return e.sf.CreateSeriesListIfNotExists(names, tags)
 		}
@@ -192,11 +202,20 @@ func run(c *jcase) (err error) {
 		if o.T == "crash_create" && o.N >= 1 && o.N <= 8 {
 			tornInsert = true
 		}
+		if c.Roll && oi == 0 { // the fill must leave exactly RollTail bytes in segment 0000
+			p := e.sf.Partitions()[c.Parts[o.Keys[0]]]
+			if len(p.Segments()) != 1 || int64(tsdb.SeriesSegmentSize(0))-activeSeg(p).Size() != int64(c.RollTail) {
+				return fmt.Errorf("roll-over fill is off: %d segments, %d bytes free, want %d", len(p.Segments()), int64(tsdb.SeriesSegmentSize(0))-activeSeg(p).Size(), c.RollTail)
+			}
+		}
 		// observations
 		o.IDs = make([]uint64, len(c.Keys))
 		var max uint64
-		for i, k := range c.Keys {
-			o.IDs[i] = e.sf.SeriesID(k.name(), k.tags(), nil)
+		for i := range c.Keys {
+			if cap(kbuf) < len(keyBytes[i]) {
+				kbuf = make([]byte, 0, len(keyBytes[i]))
+			}
+			o.IDs[i] = e.sf.SeriesID(knames[i], ktags[i], kbuf)
 			if o.IDs[i] != 0 {
 				seen[o.IDs[i]] = true
 			}
@@ -229,12 +248,14 @@ func run(c *jcase) (err error) {
 		for _, id := range ids {
 			row := jrow{ID: id, Del: e.sf.IsDeleted(id)}
 			if kb := e.sf.SeriesKey(id); kb != nil {
-				row.Key = fmt.Sprintf("%x", kb)
 				for i := range keyBytes {
 					if bytes.Equal(kb, keyBytes[i]) {
 						row.Key = fmt.Sprintf("#%d", i)
 						break
 					}
+				}
+				if row.Key == "" {
+					row.Key = fmt.Sprintf("%x", kb)
 				}
 			}
 			o.Tab = append(o.Tab, row)
@@ -261,6 +282,10 @@ func run(c *jcase) (err error) {
 		for _, r := range o.Tab {
 			lastTab[r.ID] = r
 		}
+	}
+	if c.Roll {
+		c.Final = nil
+		return nil
 	}
 	// final segment bytes
 	c.Final = make([]string, tsdb.SeriesFilePartitionN)
@@ -349,6 +374,10 @@ func term(c *jcase) string {
 	var b strings.Builder
 	ks := make([]string, len(c.Keys))
 	for i, k := range c.Keys {
+		if c.Roll { // keys interned by position (number_keys in Model/C13.v): the oracle compares keys only for equality
+			ks[i] = fmt.Sprintf("(%s, [])", vh.N(uint64(c.Parts[i])))
+			continue
+		}
 		ks[i] = fmt.Sprintf("(%s, %s)", vh.N(uint64(c.Parts[i])), pack(k.bytes()))
 	}
 	fmt.Fprintf(&b, "Build_case %s [", vh.List(ks))
@@ -376,7 +405,11 @@ func term(c *jcase) string {
 				code = uint64(i + 1)
 			} else if r.Key != "" {
 				code = uint64(1001 + len(raws))
-				raws = append(raws, pack(hexBytes(r.Key)))
+				rb := hexBytes(r.Key)
+				if c.Roll { // a key outside the domain: interned as 'R' + its hash
+					rb = []byte(fmt.Sprintf("R%016x", bhash(rb)))
+				}
+				raws = append(raws, pack(rb))
 			}
 			d := uint64(0)
 			if r.Del {
@@ -396,7 +429,11 @@ func term(c *jcase) string {
 	for i, h := range c.Final {
 		fin[i] = bhash(hexBytes(h))
 	}
-	fmt.Fprintf(&b, "] %s", vh.Ns(fin))
+	mode := 0
+	if c.Roll {
+		mode = 1
+	}
+	fmt.Fprintf(&b, "] %s %s", vh.Ns(fin), vh.N(uint64(mode)))
 	return b.String()
 }
 
@@ -442,7 +479,107 @@ func shapeSig2(c *jcase) string {
 	return ""
 }
 
-const emptyCase = "Build_case [] [] [0%N; 0%N; 0%N; 0%N; 0%N; 0%N; 0%N; 0%N]"
+// traceOracle is the Go rendering of steps_ok of coq/Model/C13.v (the property stated on the
+// observed trace alone): returns "" or a description of the first breach.
+func traceOracle(c *jcase) string {
+	prev := make([]uint64, len(c.Keys))
+	issued := map[uint64]bool{}
+	owner := map[uint64]int{}
+	for oi := range c.Ops {
+		o := &c.Ops[oi]
+		where := fmt.Sprintf("step %d (%s)", oi, o.T)
+		inOp := map[int]bool{}
+		for _, i := range o.Keys {
+			inOp[i] = true
+		}
+		if o.T == "create" && len(o.Res) == len(o.Keys) {
+			for j, i := range o.Keys {
+				if prev[i] == 0 && issued[o.Res[j]] {
+					return fmt.Sprintf("%s: key #%d (%s...) had no id and the create returned id %d, which had already been issued before (id reuse)", where, i, c.Keys[i].Name, o.Res[j])
+				}
+			}
+		}
+		for i := range c.Keys {
+			a, b := prev[i], o.IDs[i]
+			fresh := b != 0 && !issued[b]
+			ok := b == a
+			switch o.T {
+			case "create":
+				if inOp[i] && a == 0 {
+					ok = fresh
+				}
+			case "delete":
+				if a == o.ID {
+					ok = b == 0
+				}
+			case "crash_create":
+				if inOp[i] && a == 0 {
+					ok = b == 0 || fresh
+				}
+			case "crash_delete":
+				if a == o.ID {
+					ok = b == 0 || b == a
+				}
+			}
+			if !ok {
+				if b != 0 && issued[b] && b != a {
+					return fmt.Sprintf("%s: key #%d (%s...) got id %d, which had already been issued before (id reuse); its id before the step was %d", where, i, c.Keys[i].Name, b, a)
+				}
+				return fmt.Sprintf("%s: SeriesID of key #%d (%s...) changed from %d to %d", where, i, c.Keys[i].Name, a, b)
+			}
+		}
+		if o.T == "create" {
+			if len(o.Res) != len(o.Keys) {
+				return where + ": wrong number of ids returned"
+			}
+			for j, i := range o.Keys {
+				if o.Res[j] == 0 || o.Res[j] != o.IDs[i] {
+					return fmt.Sprintf("%s: create returned id %d for key #%d but SeriesID says %d", where, o.Res[j], i, o.IDs[i])
+				}
+			}
+		}
+		live := map[uint64]int{}
+		for i, b := range o.IDs {
+			if b == 0 {
+				continue
+			}
+			if j, dup := live[b]; dup {
+				return fmt.Sprintf("%s: distinct keys #%d and #%d both have id %d", where, j, i, b)
+			}
+			live[b] = i
+			if j, ok := owner[b]; ok && j != i {
+				return fmt.Sprintf("%s: id %d of key #%d belonged to key #%d before", where, b, i, j)
+			}
+			owner[b] = i
+		}
+		for _, r := range o.Tab {
+			i, owned := owner[r.ID]
+			if !owned {
+				continue
+			}
+			want := fmt.Sprintf("#%d", i)
+			if _, isLive := live[r.ID]; isLive {
+				if r.Del || r.Key != want {
+					return fmt.Sprintf("%s: live id %d of key #%d reads deleted=%v key=%.40s", where, r.ID, i, r.Del, r.Key)
+				}
+			} else if !r.Del || (r.Key != "" && r.Key != want) {
+				return fmt.Sprintf("%s: former id %d of key #%d reads deleted=%v key=%.40s", where, r.ID, i, r.Del, r.Key)
+			}
+		}
+		for _, b := range o.IDs {
+			if b != 0 {
+				issued[b] = true
+			}
+		}
+		for _, b := range o.Res {
+			issued[b] = true
+		}
+		prev = o.IDs
+	}
+	return ""
+}
+
+const emptyCase = "Build_case [] [] [0%N; 0%N; 0%N; 0%N; 0%N; 0%N; 0%N; 0%N] 0%N"
 
 func emit(w *vh.W, c *jcase) {
 	var rerr error
@@ -487,6 +624,16 @@ func emit(w *vh.W, c *jcase) {
 	}
 	w.Count("gen", c.Gen)
 	w.Count("nops", fmt.Sprint(len(c.Ops)))
+	if c.Roll {
+		// judged by the trace oracle: here on the Go side (clear message), and, when that passes,
+		// once more by the Coq oracle on the id skeleton (mode 1: no model comparison).
+		w.Count("rollover_tail_bytes", fmt.Sprint(c.RollTail))
+		if what := traceOracle(c); what != "" {
+			idx := w.Add(emptyCase, c, true, "")
+			w.Fail(idx, "segment roll-over history: "+what, "")
+			return
+		}
+	}
 	idx := w.Add(term(c), c, nontrivial, shapeSig(c))
 	if c.FailWhat != "" {
 		w.Fail(idx, c.FailWhat, findingSig2)
@@ -513,7 +660,7 @@ func keysInPartition(probe *tsdb.SeriesFile, p, n int, prefix string, tagged fun
 
 func main() {
 	w := vh.New("C13", "From Verif Require Import Base.Prelude Model.C13.", "case", "check")
-	w.Rule = "one case = one history on a fresh real tsdb.SeriesFile: 4-12 ops drawn from create(batch of 1-3 keys, duplicates allowed)/delete(id of a live key, an old id, an unissued id, 0)/reopen/compact/crash_create/crash_delete(cut after n bytes of the appended entry) over a domain of 6-9 series keys concentrated in 2-3 of the 8 partitions (measurement-only keys ending in a 0 byte, tagged keys, one key > 127 bytes with a 2-byte length varint); hand-picked histories first, incl. sweeps of EVERY cut point n of the last entry and 'big' histories with 33+ series in one partition (ids >= 256) where a cut inside the id bytes aliases another id (known finding). Non-trivial: a create is followed by a delete/reopen/compact/crash step. Distinct: distinct Gallina terms."
+	w.Rule = "one case = one history on a fresh real tsdb.SeriesFile: 4-12 ops drawn from create(batch of 1-3 keys, duplicates allowed)/delete(id of a live key, an old id, an unissued id, 0)/reopen/compact/crash_create/crash_delete(cut after n bytes of the appended entry) over a domain of 6-9 series keys concentrated in 2-3 of the 8 partitions (measurement-only keys ending in a 0 byte, tagged keys, one key > 127 bytes with a 2-byte length varint); hand-picked histories first, incl. sweeps of EVERY cut point n of the last entry and 'big' histories with 33+ series in one partition (ids >= 256) where a cut inside the id bytes aliases another id (known finding). Plus segment roll-over histories (gen=roll-*: 64 keys of ~64 KiB fill segment 0000 of one partition leaving a chosen number of free bytes; tombstone/insert rolls into segment 0001; reopen / crash right after the roll-over / create) judged by the trace oracle only. Non-trivial: a create is followed by a delete/reopen/compact/crash step. Distinct: distinct Gallina terms."
 	var rc jcase
 	if w.ReplayCase(&rc) {
 		emit(w, &rc)
@@ -564,6 +711,12 @@ func main() {
 		for _, n := range []int{8, 9} {
 			emit(w, &jcase{Keys: big, Ops: append(append([]jop{}, pre2...), jop{T: "crash_delete", ID: uint64(p + 1 + 8*32), N: n}, jop{T: "reopen"}), Gen: "big-delete"})
 		}
+	}
+	// ---- segment roll-over histories: fill segment 0000 (4 MiB) of one partition with 64 keys of
+	// ~64 KiB leaving exactly `tail` free bytes, so that the next tombstone (9 bytes) / insert
+	// lands as the FIRST entry of segment 0001 (or just fits), then reopen / crash / create.
+	for _, rc := range rollCases(probe, r, w.N) {
+		emit(w, rc)
 	}
 	w.Extra["handpicked"] = w.Len()
 
@@ -626,6 +779,86 @@ func main() {
 		emit(w, &c)
 	}
 	w.Finish()
+}
+
+// rollKeys: 64 huge keys in partition p whose insert entries (9 + key bytes) fill segment 0000
+// leaving `tail` bytes, followed by nsmall ordinary keys of the same partition.
+func rollKeys(probe *tsdb.SeriesFile, p, tail, nsmall int) []jkey {
+	const big = 65525 // name length: key = 3 (uvarint) + 2 + name + 1, entry = name + 15
+	lens := make([]int, 64)
+	total := int(tsdb.SeriesSegmentSize(0)) - tsdb.SeriesSegmentHeaderSize - tail
+	for i := 0; i < 63; i++ {
+		lens[i] = big
+		total -= big + 15
+	}
+	lens[63] = total - 15
+	var out []jkey
+	for i := 0; len(out) < 64; i++ {
+		k := jkey{Name: fmt.Sprintf("big%d_", i)}
+		k.Pad = lens[len(out)] - len(k.Name)
+		if probe.SeriesKeyPartitionID(k.bytes()) == p {
+			out = append(out, k)
+		}
+	}
+	return append(out, keysInPartition(probe, p, nsmall, "sm", nil)...)
+}
+
+func rollCases(probe *tsdb.SeriesFile, r interface{ IntN(int) int }, n int) []*jcase {
+	var out []*jcase
+	fill := make([]int, 64)
+	for i := range fill {
+		fill[i] = i
+	}
+	mk := func(p, tail int, gen string, ops ...jop) {
+		c := &jcase{Keys: rollKeys(probe, p, tail, 4), Roll: true, RollTail: tail, Gen: gen}
+		c.Ops = append([]jop{{T: "create", Keys: fill}}, ops...)
+		out = append(out, c)
+	}
+	id := func(p, i int) uint64 { return uint64(p + 1 + 8*i) }
+	for ti, tail := range []int{0, 8, 9, 12, 40} {
+		p := []int{7, 0, 3, 7, 5}[ti]
+		// tombstone is the only entry of segment 0001 (tail < 9) or just fits; clean reopen; creates
+		mk(p, tail, "roll-delete", jop{T: "delete", ID: id(p, 0)}, jop{T: "reopen"}, jop{T: "create", Keys: []int{64, 65}},
+			jop{T: "compact"}, jop{T: "reopen"}, jop{T: "create", Keys: []int{66, 0}})
+		// crash right after the roll-over: segment 0001 exists, its first entry never arrived
+		mk(p, tail, "roll-crash-create", jop{T: "crash_create", Keys: []int{64}, N: 0}, jop{T: "create", Keys: []int{65, 66}},
+			jop{T: "reopen"}, jop{T: "create", Keys: []int{64}})
+		mk(p, tail, "roll-crash-delete", jop{T: "crash_delete", ID: id(p, 3), N: 0}, jop{T: "create", Keys: []int{64}},
+			jop{T: "delete", ID: id(p, 3)}, jop{T: "reopen"}, jop{T: "create", Keys: []int{65, 3}})
+		// insert rolls over, no crash
+		mk(p, tail, "roll-insert", jop{T: "create", Keys: []int{64}}, jop{T: "reopen"}, jop{T: "delete", ID: id(p, 64)},
+			jop{T: "reopen"}, jop{T: "create", Keys: []int{64, 65}}, jop{T: "compact"}, jop{T: "create", Keys: []int{66}})
+	}
+	// a few generated ones
+	ngen := 6
+	if n >= 2000 {
+		ngen = 60
+	}
+	for g := 0; g < ngen; g++ {
+		p, tail := r.IntN(8), r.IntN(30)
+		if r.IntN(3) == 0 {
+			tail = r.IntN(9)
+		}
+		var ops []jop
+		for j, m := 0, 3+r.IntN(5); j < m; j++ {
+			switch x := r.IntN(100); {
+			case x < 25:
+				ops = append(ops, jop{T: "delete", ID: id(p, r.IntN(68))})
+			case x < 50:
+				ops = append(ops, jop{T: "create", Keys: []int{64 + r.IntN(4), r.IntN(68)}})
+			case x < 72:
+				ops = append(ops, jop{T: "reopen"})
+			case x < 80:
+				ops = append(ops, jop{T: "compact"})
+			case x < 90: // cut points 0 or past the id bytes (cuts inside the id bytes are the known findings)
+				ops = append(ops, jop{T: "crash_create", Keys: []int{64 + r.IntN(4)}, N: []int{0, 0, 9, 12, 30}[r.IntN(5)]})
+			default:
+				ops = append(ops, jop{T: "crash_delete", ID: id(p, r.IntN(68)), N: []int{0, 0, 9}[r.IntN(3)]})
+			}
+		}
+		mk(p, tail, "roll-random", ops...)
+	}
+	return out
 }
 
 func pickID(r interface{ IntN(int) int }, issued []uint64) uint64 {
